@@ -65,7 +65,7 @@ def offer(text, offset, other=False):
     n0 = len(R.feedback) + len(R.ignored_feedback)
     before = {id(f) for f in R.feedback}
     ev = {"cls": cls, "line": line, "offset": offset, "raised": False, "nsyntax": 0, "fbline": 0, "blankfb": False,
-          "tree_ok": False}
+          "tree_ok": False, "tbline": 0}
     try:
         if other:
             verify(text, filename="helper.py", report=R)
@@ -80,6 +80,7 @@ def offer(text, offset, other=False):
     ev["nsyntax"] = len(syn)
     if syn and syn[0].location is not None and syn[0].location.line is not None:
         ev["fbline"] = syn[0].location.line
+    ev["tbline"] = traceback_line(syn[0]) if syn else 0
     ev["blankfb"] = any(f.label == "blank_source" for f in new)
     if cls in ("ok", "blank"):
         try:
@@ -87,6 +88,15 @@ def offer(text, offset, other=False):
         except Exception:
             ev["tree_ok"] = False
     return ev
+
+
+def traceback_line(feedback):
+    """The line of the last frame shown in the feedback's traceback (0 when there is none)."""
+    stack = (feedback.fields or {}).get("traceback_stack") or []
+    try:
+        return int(stack[-1].lineno) if stack else 0
+    except Exception:
+        return 0
 
 
 def fresh():
@@ -164,7 +174,9 @@ def text_chunk(items, extra):
 # ------------------------------------------------------------------ verify() inside a section (whole-file numbering)
 PROLOGUES = ["x = 1\n", "x = 1\n\n\n", "x = 1\n# page one\x0cpage two\n", "s = 'a\x0bb'\nt = 2\n", "x = 1\r\ny = 2\r\n",
              "# \x1c \x1d \x1e\n", "#   and   and \x85\nz = 0\n", "u = '''a\nb'''\n", "", "x = 1\ry = 2\n"]
-SECTION_BODIES = ["y = (\n", "def f(:\n    pass\n", "a = 5\nb = = 6\n", "if True:\nx = 1\n", "ok = 1\nprint(ok)\n"]
+SECTION_BODIES = ["y = (\n", "def f(:\n    pass\n", "a = 5\nb = = 6\n", "if True:\nx = 1\n", "ok = 1\nprint(ok)\n",
+                  # old-Mac line ends INSIDE the section: the parser counts them, str.split("\n") does not
+                  "k = 1\rm = 2\rb = = 6", "k = 1\rm = 2\rn = 3\rb = = 6\n"]
 
 
 def section_chunk(items, extra):
@@ -200,7 +212,7 @@ def section_chunk(items, extra):
         clear_report()
         contextualize_report(whole)
         ev = {"cls": cls, "line": line, "offset": true_offset, "raised": False, "nsyntax": 0, "fbline": 0, "blankfb": False,
-              "tree_ok": False, "sectioned": True}
+              "tree_ok": False, "sectioned": True, "tbline": 0}
         try:
             separate_into_sections(independent=True, report=R)
             for _ in range(k):
@@ -232,6 +244,7 @@ def section_chunk(items, extra):
         ev["nsyntax"] = len(syn)
         if syn and syn[0].location is not None and syn[0].location.line is not None:
             ev["fbline"] = syn[0].location.line
+        ev["tbline"] = traceback_line(syn[0]) if syn else 0
         ev["blankfb"] = any(f.label == "blank_source" for f in new)
         if cls in ("ok", "blank"):
             try:
